@@ -351,6 +351,21 @@ func caseC20(c *Ctx) {
 						break
 					}
 				}
+			} else {
+				// a Reset that is refused because the world is locked leaves the resources alone
+				if !mustPanic(func() { s.W.Reset() }) {
+					s.fail("illegal.nopanic:locked.Reset", "Reset returned normally on a locked world")
+					break
+				}
+				d := helperDump(c.R, 3)
+				if !mustPanic(func() { s.W.LoadEntities(&d.d) }) {
+					s.fail("illegal.nopanic:locked.LoadEntities", "LoadEntities returned normally on a locked world")
+					break
+				}
+				s.Cov.N["res_rejected_resets_while_locked"]++
+				if !checkResources(s) {
+					break
+				}
 			}
 		case 5: // hold a query open: resources are independent of world locking
 			if len(held) < 3 {
